@@ -424,7 +424,13 @@ def slice_with_int_dask_array_aggregate(idx, chunk_outputs, x_chunks, axis):
     idx = idx.astype(np.int64)
 
     # Normalize negative indices
-    idx = np.where(idx < 0, idx + sum(x_chunks), idx)
+    x_size = sum(x_chunks)
+    idx = np.where(idx < 0, idx + x_size, idx)
+
+    # The per-chunk kernel silently drops entries that lie in no chunk of x
+    out_of_bounds = (idx < 0) | (idx >= x_size)
+    if out_of_bounds.any():
+        raise IndexError(f"index out of bounds for axis {axis} with size {x_size}")
 
     x_chunk_offset = 0
     chunk_output_offset = 0
